@@ -35,7 +35,10 @@ API (used by drivers c06/c16 and meant for reuse by the verify / attestation-flo
                                                     #   attestation: the single header byte
                               "message": bytes,     # optional: explicit message (leaf ui/signer,
                                                     #   or any element if you know what you do)
-                              "compressed": bool},  # optional: embed a 33-byte key
+                              "compressed": bool,   # optional: embed a 33-byte key
+                              "shape": s},          # optional: a non-canonical message shape, see
+                                                    #   SHAPES / shaped_message (children are still
+                                                    #   signed by the element's real key)
                              ...]}
         Elements may be listed in any order; an element whose declared/real signer does not exist
         is signed by a throw-away key.  Names may repeat (later items are independent elements with
@@ -426,6 +429,41 @@ class Chain:
         return info
 
 
+SHAPES = ("canon", "comp", "longTail", "longHead", "short", "sliced")
+
+
+def shaped_message(name, key, shape, rng, variant=None):
+    """The message of an element whose own key is `key`, in a non-canonical SHAPE.  The element's
+    value (key_span) is then, by this module's reading of the format:
+        comp      exactly the 33-byte compressed key (device: the message is nothing but that key)
+        longTail  extra bytes followed by the 65-byte key (for a device the value, its last 65 bytes,
+                  is still exactly the key; for the others the value is LONGER than a key)
+        longHead  the 65-byte key followed by extra bytes
+        short     a truncated key: variant 0 = last byte dropped, 1 = x||y without the format byte,
+                  2 = the x coordinate only
+        sliced    padding, the key, padding (a key only after slicing it out)
+    An element certifies with the key that its WHOLE value is; in every shape but comp (and a device's
+    longTail) the value is not a key at all."""
+    def rnd(n):
+        return bytes(rng.randrange(256) for _ in range(n))
+    head = b"" if name in ("ui", "signer") else bytes([rng.randrange(256)]) if name == "attestation" \
+        else rnd(rng.randrange(1, 40))
+    if shape == "comp":
+        return (b"" if name == "device" else head) + key.pub33
+    if shape == "longTail":
+        return head + rnd(rng.choice([1, 2, 16, 65, 100])) + key.pub65
+    if shape == "longHead":
+        return head + key.pub65 + rnd(rng.choice([1, 2, 16, 65]))
+    if shape == "short":
+        v = rng.randrange(3) if variant is None else variant % 3
+        if v == 1 and name == "device" and head[-1] in (4, 6, 7):
+            head = head[:-1] + b"\x00"      # (else the last 65 bytes would spell the key again)
+        return head + (key.pub65[:-1] if v == 0 else key.pub65[1:] if v == 1 else key.pub65[1:33])
+    if shape == "sliced":
+        return head + rnd(rng.choice([1, 4, 32])) + key.pub65 + rnd(rng.choice([1, 4, 32]))
+    raise ValueError("unknown shape %r" % (shape,))
+
+
 def build(spec, rng, backend="ecdsa", keypool=None):
     """Build a well-formed chain: every element is signed over its message by the (tweaked) key of
     its `signer` (default: the declared `signed_by`).  `keypool`: optional callable rng -> Key."""
@@ -454,6 +492,8 @@ def build(spec, rng, backend="ecdsa", keypool=None):
         key = ch.keys[own[i]]
         if it.get("message") is not None:
             msg = bytes(it["message"])
+        elif it.get("shape", "canon") != "canon":
+            msg = shaped_message(n, key, it["shape"], rng, it.get("variant"))
         else:
             kb = key.pub33 if (it.get("compressed") and n != "device") else key.pub65
             if n == "device":
